@@ -104,16 +104,28 @@ def apply_stack(bib, value, fs, inplace, history=False):
         fields.append(M.Field("month", value))
     fields.append(M.Field("year", "1"))
     lib = bib.Library([M.Entry("article", "k", fields), M.String("month", "jan"), M.ImplicitComment("march")])
+    inst = {}
+
+    def the(f):
+        # with a history, the SAME middleware objects have already worked (on this entry, which then held the value
+        # in the other letter case): a middleware's answer is a function of the value it is given now
+        if not history:
+            return cls[f](allow_inplace_modification=inplace)
+        if f not in inst:
+            inst[f] = cls[f](allow_inplace_modification=inplace)
+        return inst[f]
     try:
         if history:
             e0 = lib.entries[0]
             keep = [f for f in e0.fields]
-            e0.fields = [M.Field("title", "May 12"), M.Field("month", "dec"), M.Field("year", "1")]
-            for f in ("long", "int", "abbr"):
-                lib = cls[f](allow_inplace_modification=inplace).transform(lib)
+            earlier = value.swapcase() if isinstance(value, str) and value.swapcase() != value else "dec"
+            for first in ("long", "int", "abbr"):
+                e0 = lib.entries[0]
+                e0.fields = [M.Field("title", "May 12"), M.Field("month", earlier), M.Field("year", "1")]
+                lib = the(first).transform(lib)
             lib.entries[0].fields = keep
         for f in fs:
-            lib = cls[f](allow_inplace_modification=inplace).transform(lib)
+            lib = the(f).transform(lib)
     except Exception as e:
         return type(e).__name__, None, True
     e = lib.entries[0] if lib.entries else None
